@@ -7,6 +7,7 @@
 //!                   All other lines (TLC's own messages) are copied to `--tlc-log`.
 //! `harness record`  drives the real crate with seeded random inputs and writes an ndjson trace
 //!                   that a `Trace_*.tla` specification validates.
+mod ctx;
 mod enc;
 mod entry;
 mod guard;
@@ -102,6 +103,13 @@ fn main() {
             }
             let summary = st.summary();
             std::fs::write(&out, serde_json::to_string_pretty(&summary).unwrap()).expect("write summary");
+        },
+        Some("probe-lenunit") => {
+            // the unit `len` counts in: a model parameter of Builtins.tla
+            match evalexpr::eval("len(\"\u{e4}\")") {
+                Ok(evalexpr::Value::Int(1)) => println!("chars"),
+                _ => println!("bytes"),
+            }
         },
         _ => {
             eprintln!("usage: harness replay --out FILE [--tlc-log FILE] [--max-failures N] < tlc-stdout");
